@@ -302,6 +302,47 @@ static vnacal_new_parameter_t *get_parameter_common(const char *function,
 }
 
 /*
+ * _vnacal_new_check_parameter: validate a handle without entering it
+ *   @function: name of user-called function
+ *   @vnp: pointer to vnacal_new_t structure
+ *   @parameter: parameter index such as VNACAL_ZERO
+ *
+ * Makes the checks of _vnacal_new_get_parameter without changing the
+ * vnacal_new_t structure, so that the caller can validate all handles
+ * of a standard before it enters any of them.
+ */
+int _vnacal_new_check_parameter(const char *function,
+	vnacal_new_t *vnp, int parameter)
+{
+    vnacal_t *vcp = vnp->vn_vcp;
+    vnacal_parameter_t *vpmrp;
+
+    if ((vpmrp = _vnacal_get_parameter(vcp, parameter)) == NULL) {
+	_vnacal_error(vcp, VNAERR_USAGE, "%s: invalid parameter index %d",
+		function, parameter);
+	return -1;
+    }
+    for (;;) {
+	if (hash_lookup(&vnp->vn_parameter_hash,
+		    VNACAL_GET_PARAMETER_INDEX(vpmrp)) != NULL) {
+	    return 0;
+	}
+	if (vnp->vn_frequencies_valid) {
+	    if (check_single_frequency_range(function, vnp,
+			vnp->vn_frequency_vector[0],
+			vnp->vn_frequency_vector[vnp->vn_frequencies - 1],
+			vpmrp) == -1) {
+		return -1;
+	    }
+	}
+	if (VNACAL_GET_PARAMETER_TYPE(vpmrp) != VNACAL_CORRELATED) {
+	    return 0;
+	}
+	vpmrp = VNACAL_GET_PARAMETER_OTHER(vpmrp);
+    }
+}
+
+/*
  * _vnacal_new_get_parameter: add/find parameter
  *   @function: name of user-called function
  *   @vnp: pointer to vnacal_new_t structure
